@@ -81,7 +81,8 @@ def run(ctx):
         def hdr(k, st0, witharg=witharg, modes=modes, ns=ns):
             return {"witharg": witharg, "ns": ns, "modes": modes}
         graph_replay(ctx, "Aggregator", "Aggregator", cfg, tag, rp, proj, header_fn=hdr, merge_re=MERGE,
-                     must_take=ACTIONS + extra, constants=consts, replay_timeout=3000, tlc_kw={"workers": 4})
+                     must_take=(ACTIONS + extra) if ns else ["Access", "AggStart", "AggInit", "AggEnd", "Destroy"],
+                     constants=consts, replay_timeout=3000, tlc_kw={"workers": 4})
     ctx.assume("values are (source, sequence number) pairs encoded as 100*s+j; access i passes 100+i; operation k completes with k")
     ctx.assume("controller::_count lives in the aggregate's coroutine frame and is not observable from outside: it is bound through "
                "behaviour (end reported / access hanging / drain blocking) and the observable queue content, not by direct comparison")
